@@ -3,6 +3,8 @@ import WpModel.Drive.PdfStream
 import WpModel.Drive.ContentCheck
 import WpModel.Drive.PdfPages
 import WpModel.Drive.DrawSkeleton
+import WpModel.Drive.PdfFile
 
 def main : IO Unit := Wp.Drive.runDriver
-  [Wp.Drive.PdfStream.handle, Wp.Drive.ContentCheck.handle, Wp.Drive.PdfPages.handle, Wp.Drive.DrawSkeleton.handle]
+  [Wp.Drive.PdfStream.handle, Wp.Drive.ContentCheck.handle, Wp.Drive.PdfPages.handle, Wp.Drive.DrawSkeleton.handle,
+   Wp.Drive.PdfFile.handle]
